@@ -2,6 +2,8 @@ package hsim
 
 import (
 	"fmt"
+
+	"google.golang.org/protobuf/proto"
 	"sort"
 	"strings"
 	"testing"
@@ -20,7 +22,9 @@ type Scenario struct {
 	World  WorldCfg `json:"world"`
 	Steps  []Step   `json:"steps"`
 	// Opts
-	NoFinalClose bool `json:"no_final_close,omitempty"`
+	NoFinalClose bool   `json:"no_final_close,omitempty"`
+	NoOracles    bool   `json:"no_oracles,omitempty"` // twin executions only collect streams
+	Diff         string `json:"diff,omitempty"`       // flags | isolation: differential re-execution
 }
 
 type Result struct {
@@ -37,7 +41,11 @@ type Result struct {
 	Skipped    int               `json:"skipped_steps"`
 	Executed   int               `json:"executed_steps"`
 	Panics     []string          `json:"panics,omitempty"`
-	Streams    map[string]string `json:"-"` // per connection normalised stream (differential checks)
+	Streams    map[string][]*streamItem `json:"-"` // per connection normalised stream (differential checks)
+	Sent       map[int][]byte    `json:"-"` // request payloads actually sent, by step index
+	RIDs       map[int]uint32    `json:"-"`
+	InS0       map[int]bool      `json:"-"` // steps that touch the observed session S0
+	FinalState string            `json:"-"`
 }
 
 type runner struct {
@@ -64,12 +72,18 @@ func (r *runner) v(prop, rule, format string, a ...any) {
 	r.violate(Violation{Prop: prop, Rule: rule, Detail: fmt.Sprintf(format, a...)})
 }
 
-func (r *runner) stop() bool   { return len(r.res.Violations) > 0 || r.w.sim.Failure != "" }
+func (r *runner) stop() bool {
+	if r.sc.NoOracles {
+		r.res.Violations = nil
+		return r.w.sim.Failure != ""
+	}
+	return len(r.res.Violations) > 0 || r.w.sim.Failure != ""
+}
 func (r *runner) failed() bool { return r.stop() || r.desync }
 
 // RunScenario executes one scenario inside its own synctest bubble.
 func RunScenario(t *testing.T, sc *Scenario) *Result {
-	res := &Result{Stats: map[string]int{}, Triggers: map[string]int{}, States: map[string]bool{}, Blocks: map[string]bool{}, Streams: map[string]string{}}
+	res := &Result{Stats: map[string]int{}, Triggers: map[string]int{}, States: map[string]bool{}, Blocks: map[string]bool{}, Streams: map[string][]*streamItem{}, Sent: map[int][]byte{}, InS0: map[int]bool{}, RIDs: map[int]uint32{}}
 	defer func() {
 		// the end-of-bubble deadlock panic (a goroutine that could not be killed)
 		if p := recover(); p != nil {
@@ -94,8 +108,14 @@ func RunScenario(t *testing.T, sc *Scenario) *Result {
 		for _, p := range w.sim.Panics {
 			res.Panics = append(res.Panics, fmt.Sprintf("task %s [%s]: %v", p.Name, p.Label, p.Panic))
 		}
+		for _, c := range w.Clients {
+			res.Streams[c.Label] = c.Stream
+		}
 		w.Close()
 	})
+	if sc.Diff != "" && len(res.Violations) == 0 && res.Failure == "" {
+		runDiff(t, sc, res)
+	}
 	return res
 }
 
@@ -249,6 +269,7 @@ func (r *runner) runSeq(st *Step) {
 	r.res.Executed++
 	switch st.Op {
 	case "close", "rst":
+		r.noteS0(st)
 		r.markAll()
 		hadEntities := mc.Session != nil
 		if st.Op == "close" {
@@ -271,11 +292,24 @@ func (r *runner) runSeq(st *Step) {
 		return
 	}
 	r.markAll()
+	if st.Op == "rawreq" {
+		c.SendPayload(st.Raw)
+		r.quiesce()
+		if c.Ended() && !r.m.conn(st.Conn).Gone {
+			r.m.Depart(st.Conn)
+		}
+		return
+	}
 	p := r.m.Build(st, st.Conn, c.NextReqID())
 	if p.Req == nil {
 		r.res.Skipped++
 		return
 	}
+	if b, err := proto.Marshal(p.Req); err == nil {
+		r.res.Sent[r.stepIdx] = b
+	}
+	r.res.RIDs[r.stepIdx] = p.RID
+	r.noteS0(st)
 	c.Send(p.Req)
 	r.quiesce()
 	got := c.NonClock(c.Since())
@@ -283,7 +317,38 @@ func (r *runner) runSeq(st *Step) {
 	r.afterRequest(st, c, out)
 }
 
+// noteS0 records whether a step belongs to the history of the observed session S0: a step of
+// a connection that is in S0, or a join that enters S0.
+func (r *runner) noteS0(st *Step) {
+	mc := r.m.conn(st.Conn)
+	in := mc.Session != nil && r.w.symOf[mc.Session.UUID] == "S0"
+	if st.Op == "join" && st.Sess == "S0" {
+		in = true
+	}
+	r.res.InS0[r.stepIdx] = in
+}
+
 func (r *runner) afterRequest(st *Step, c *Client, out *Outcome) {
+	if st.Op == "join" && out.Accepted {
+		// which symbolic session does that uuid stand for (stream tags of the differential checks)
+		if mc := r.m.conn(st.Conn); mc.Session != nil {
+			sym := st.Sess
+			if old, ok := r.w.symOf[mc.Session.UUID]; ok {
+				sym = old
+			}
+			r.w.symOf[mc.Session.UUID] = sym
+			for i := len(c.Stream) - 1; i >= 0; i-- {
+				if c.Stream[i].Type == 4 {
+					for _, it := range c.Stream[i:] {
+						if it.Sym == "" {
+							it.Sym = sym
+						}
+					}
+					break
+				}
+			}
+		}
+	}
 	for _, v := range out.Viol {
 		r.violate(v)
 	}
@@ -867,6 +932,7 @@ func (r *runner) finish() {
 	if r.w.sim.Failure != "" {
 		return
 	}
+	r.res.FinalState = r.finalState()
 	if !r.stop() && !r.sc.NoFinalClose {
 		for _, ci := range r.sortedClients() {
 			c := r.clients[ci]
@@ -935,4 +1001,32 @@ func (r *runner) lifecycle() {
 	if r.w.cfg.Decorators && g.Connected != r.w.gauge0.Connected {
 		r.v("C08", "gauge-not-restored", "ws_connected_clients is off by %v after every client closed", g.Connected-r.w.gauge0.Connected)
 	}
+}
+
+// finalState is a canonical rendering of the server's sessions before the final close (ids and
+// uuids left out).
+func (r *runner) finalState() string {
+	var parts []string
+	snap := r.serverSnapshot()
+	for _, s := range snap {
+		var b strings.Builder
+		var ps []uint32
+		for p := range s.Members {
+			ps = append(ps, p)
+		}
+		sort.Slice(ps, func(i, j int) bool { return ps[i] < ps[j] })
+		fmt.Fprintf(&b, "P%v E[", ps)
+		for _, id := range sortedKeysE(s.Entities) {
+			e := s.Entities[id]
+			fmt.Fprintf(&b, "%d:%d:%v:%d:%v ", id, e.Owner, e.Persist, e.Flag, e.Pose)
+		}
+		fmt.Fprintf(&b, "] C[")
+		for _, k := range sortedCKeys(s.Components) {
+			fmt.Fprintf(&b, "%v=%s ", k, s.Components[k])
+		}
+		fmt.Fprintf(&b, "] A%d S%d", len(s.Actions), len(s.Assets))
+		parts = append(parts, b.String())
+	}
+	sort.Strings(parts)
+	return strings.Join(parts, " | ")
 }
